@@ -292,6 +292,9 @@ def klass(index, rep):
     rep.require_min(rule, 20)
 
 
+MILK_POP_PARAM = [None]
+
+
 def milk(index, rep):
     rule = "C05.MILK"
     cls = index.cls(MD, "MeatAndDairy")
@@ -331,18 +334,35 @@ def milk(index, rep):
     co = PDict()
 
     def hook2(interp, d, args, kwargs, node):
-        if d == "meat_and_dairy.get_milk_produced_postwaste":
+        if d and d.endswith(".get_milk_produced_postwaste"):
             return (Rat.atom(("MILKFN", str(interp.to_rat(args[0])))), Rat.atom(("mf",)), Rat.atom(("mp",)))
-        if d == "meat_and_dairy.get_meat_nutrition":
+        if d and d.endswith(".get_meat_nutrition"):
             return tuple(Rat.atom(("mn", i)) for i in range(8))
         return NotImplemented
 
     it2.call_hook = hook2
     pop = Rat.atom(("pop",))
+    from .core import param_role as _pr
+    roles = {"md": _pr(c, r"(\w+)\.get_milk_produced_postwaste\("), "tc": _pr(c, r"(\w+)\['milk_kcals'\]"),
+             "ci": _pr(c, r"(\w+)\['MILK_YIELD_KG_PER_MILK_BEARING_ANIMAL_PER_YEAR'\]")}
+    cparams = [a.arg for a in c.args.args if a.arg != "self"]
+    if None in roles.values():
+        raise AnalysisError(f"calculate_non_meat_and_dairy_from_feed_results: parameter roles not identified ({roles})")
+    # the herd-size parameter: the one the caller binds to <herd>.get_total_milk_bearing_animals() (identified below), here: the only
+    # parameter that is neither a dictionary nor the MeatAndDairy object and is used in arithmetic with the milk yield
+    rest = [p_ for p_ in cparams if p_ not in roles.values()]
+    import re as _re
+    popp = [p_ for p_ in rest if _re.search(rf"\b{p_}\b\s*\*|\*\s*\b{p_}\b", norm_src(c))]
+    if len(popp) != 1:
+        raise AnalysisError(f"calculate_non_meat_and_dairy_from_feed_results: herd-size parameter not identified ({rest})")
+    kwargs2 = {roles["ci"]: Path(("ci",)), roles["tc"]: tc, popp[0]: pop, roles["md"]: Path(("md",))}
+    for p_ in cparams:
+        kwargs2.setdefault(p_, co if p_ != popp[0] else pop)
     try:
-        it2.call_function(c, [Path(("ci",)), co, tc, pop, Path(("md",))], {}, Obj(pcls, {}, "self"))
+        it2.call_function(c, [], kwargs2, Obj(pcls, {}, "self"))
     except Exception as e:
         raise AnalysisError(f"calculate_non_meat_and_dairy_from_feed_results outside the fragment: {e!r}")
+    MILK_POP_PARAM[0] = popp[0]
     y = it2.to_rat(Path(("ci", "MILK_YIELD_KG_PER_MILK_BEARING_ANIMAL_PER_YEAR")))
     want_arg = pop * y / Rat.const(12) / Rat.const(1000)
     rep.check(tc.d.get("milk_kcals") == Rat.atom(("MILKFN", str(want_arg))), rule, "milk-tonnes = herd x yield / 12 / 1000",
@@ -351,8 +371,13 @@ def milk(index, rep):
     im = index.func(PARAMS, "Parameters.init_meat_and_dairy_and_feed_from_breeding")
     call = [x for x in walk_no_nested(im) if isinstance(x, ast.Call) and dotted(x.func) == "self.calculate_non_meat_and_dairy_from_feed_results"]
     inl_im = Inliner(im)
-    herd_param = im.args.args[2].arg if len(im.args.args) > 2 else None
-    ok = len(call) == 1 and len(call[0].args) > 3 and herd_param is not None and inl_im.src(call[0].args[3]) == f"{herd_param}.get_total_milk_bearing_animals()"
+    from .core import param_role, bind_args
+    herd_param = param_role(im, r"(\w+)\.feed_used\b")
+    ok = len(call) == 1 and herd_param is not None
+    if ok:
+        bound = bind_args(call[0], index.func(PARAMS, "Parameters.calculate_non_meat_and_dairy_from_feed_results"))
+        herd_args = [p_ for p_, a_ in bound.items() if inl_im.src(a_) == f"{herd_param}.get_total_milk_bearing_animals()"]
+        ok = len(herd_args) == 1 and herd_args[0] == MILK_POP_PARAM[0]
     rep.check(ok, rule, "herd = this round's milk-bearing animals", "the milking herd is not get_total_milk_bearing_animals() of the same round's herd object",
               loc=loc(PARAMS, im))
     tm = index.func(ANIM, "CalculateFeedAndMeat.get_total_milk_bearing_animals")
@@ -393,7 +418,11 @@ def feedge(index, rep, flow):
     call = [c for c in walk_no_nested(fn) if isinstance(c, ast.Call) and dotted(c.func) == "self.init_meat_and_dairy_and_feed_from_breeding"]
     inl = Inliner(fn)
     params = [a.arg for a in fn.args.args]
-    alts = inl.alternatives(call[0].args[1]) if len(call) == 1 and len(call[0].args) > 1 else None
+    from .core import bind_args as _ba, param_role as _pr2
+    imf = index.func(PARAMS, "Parameters.init_meat_and_dairy_and_feed_from_breeding")
+    herd_role = _pr2(imf, r"(\w+)\.feed_used\b")
+    herd_arg = _ba(call[0], imf).get(herd_role) if len(call) == 1 and herd_role else None
+    alts = inl.alternatives(herd_arg) if herd_arg is not None else None
     herd_src = sorted({("CalculateFeedAndMeat" if a.startswith("CalculateFeedAndMeat(") else a) for a in (alts or ["?"])})
     r1 = [p_ for p_ in params if "feed_meat_object" in p_]
     rep.check(len(r1) == 1 and herd_src == sorted(["CalculateFeedAndMeat", r1[0]]), rule, "round3:herd-object",
